@@ -65,13 +65,34 @@ def build(h, hist):
     return st
 
 
-_H = {}
+_POOL = [None, 0]
+
+
+def get_pool(nproc):
+    """One fork pool per process, shared by every bfs() call of a check run (harness classes travel
+    by reference, so they must be module-level classes of an importable module)."""
+    if nproc <= 1:
+        return None
+    if _POOL[0] is None or _POOL[1] != nproc:
+        close_pool()
+        _POOL[0] = multiprocessing.get_context('fork').Pool(nproc)
+        _POOL[1] = nproc
+        import atexit
+        atexit.register(close_pool)
+    return _POOL[0]
+
+
+def close_pool():
+    if _POOL[0] is not None:
+        _POOL[0].terminate()
+        _POOL[0].join()
+        _POOL[0] = None
 
 
 def _expand(args):
     """Expand a batch of states: returns (Part, [(child_hist, key, cost)])."""
-    hname, params, batch, dev_bound, check_replay = args
-    h = _H[hname](params)
+    hcls, params, batch, dev_bound, check_replay = args
+    h = hcls(params)
     part = Part()
     out = []
     for hist, cost in batch:
@@ -133,7 +154,6 @@ def _expand_guarded(args):
 def bfs(ctx, harness_cls, params, max_depth, dev_bound=None, max_states=None, label=None):
     """Breadth-first exploration.  Returns dict with counts."""
     hname = label or harness_cls.name
-    _H[hname] = harness_cls
     h = harness_cls(params)
     part0 = Part()
     st = build(h, [])
@@ -150,15 +170,14 @@ def bfs(ctx, harness_cls, params, max_depth, dev_bound=None, max_states=None, la
     frontier = [([], 0)]
     states, transitions, depth = 1, 0, 0
     capped = False
-    mp = multiprocessing.get_context('fork')
-    pool = mp.Pool(ctx.nproc) if ctx.nproc > 1 else None
-    try:
+    pool = get_pool(ctx.nproc)
+    if True:
         while frontier and depth < max_depth:
             depth += 1
             frontier = ctx.rotate(frontier) if depth == 1 else frontier
             nb = max(1, min(len(frontier), ctx.nproc * 4))
             batches = [frontier[i::nb] for i in range(nb)]
-            jobs = [(hname, params, b, dev_bound, True) for b in batches if b]
+            jobs = [(harness_cls, params, b, dev_bound, True) for b in batches if b]
             if pool is not None and len(jobs) > 1:
                 results = pool.map(_expand_guarded, jobs, 1)
             else:
@@ -183,10 +202,6 @@ def bfs(ctx, harness_cls, params, max_depth, dev_bound=None, max_states=None, la
                 ctx.cap('%s: state cap %d reached at depth %d' % (hname, max_states, depth))
                 break
             frontier = nxt
-    finally:
-        if pool is not None:
-            pool.terminate()
-            pool.join()
     ctx.count('states', states)
     ctx.count('executions', transitions)
     info = {'params': jsonable(params), 'max_depth': max_depth, 'depth_reached': depth, 'states': states,
